@@ -16,6 +16,18 @@ ORDER = 10
 SIZES = [5000, 1024, 2048, 2049, 8192, 100 * 1024]
 
 
+def signature_of(problem):
+    """D8's own signature only for D8's fault class (the store does not fit: IndexError out of add);
+    any other way of failing this scenario is a different defect and gets a different signature."""
+    if problem is None:
+        return None
+    if "raises IndexError" in problem:
+        return lib.D8_SIGNATURE
+    if "raises" in problem.split(";")[0]:
+        return "journal.add:exception-on-large-record"
+    return "journal.add:large-record-list-divergence"
+
+
 def scenario(jm, path, size):
     """fresh FileJournal, add(b'x'*10, 1, 0), add(b'y'*size, 2, 0); returns None or a description"""
     lib.remove_files(path)
@@ -60,7 +72,7 @@ def run(ctx):
         p = scenario(jm, path, size)
         results[str(size)] = "ok" if p is None else p
         if p is not None and not viols:
-            viols.append({"signature": lib.D8_SIGNATURE,
+            viols.append({"signature": signature_of(p),
                           "what": "fresh FileJournal (1024-byte file), add(b'x'*10,1,0) then add(b'y'*%d,2,0): %s" % (size, p),
                           "replay": {"witness": "d08_journal_grow_once", "size": size}})
     return {"cases": len(SIZES), "distinct": len(SIZES), "violations": viols, "disagreements": [],
@@ -77,4 +89,4 @@ def replay(ctx, violation):
         p = scenario(jm, os.path.join(tmp, "d08-journal"), size)
     finally:
         shutil.rmtree(tmp, ignore_errors=True)      # ./check --replay does not clean up the ctx
-    return {"violated": p is not None, "signature": lib.D8_SIGNATURE if p else None, "what": p, "size": size, "tree": ctx.repo}
+    return {"violated": p is not None, "signature": signature_of(p), "what": p, "size": size, "tree": ctx.repo}
